@@ -124,6 +124,9 @@ def build():
         'no iteration over / ordered consumption of a set in the modules that generate SQL, hints and previews '
         '(everything set-typed goes through sorted() or an order-free use)'))
     fam.syntactic.append(Syntactic(
+        'generators_consumed_once', ['C14', 'C07'], syn_generators_consumed_once,
+        'a generator-valued local on the SQL execution path is iterated once, or turned into a list first'))
+    fam.syntactic.append(Syntactic(
         'database_argument_threaded', ['C16'], syn_database_threaded,
         'every call, on the evolve path, of a repository function with an optional database parameter passes that '
         'parameter (nothing silently falls back to the default alias)'))
@@ -184,3 +187,92 @@ def syn_database_threaded():
     if found:
         return False, 'calls falling back to the default database: ' + '; '.join(found)
     return True, '%d functions with an optional database parameter, %d files scanned' % (len(defs), len(scope))
+
+
+# ------------------------------------------------------------------------------------------------- C14 / C07
+GEN_SCOPE = ['django_evolution/utils/sql.py', 'django_evolution/evolve/*.py', 'django_evolution/db/sql_result.py',
+             'django_evolution/db/common.py', 'django_evolution/db/sqlite3.py', 'django_evolution/mutators/*.py']
+ITER_CALLS = ('list', 'tuple', 'sorted', 'set', 'enumerate', 'zip', 'any', 'all', 'sum', 'min', 'max')
+
+
+def syn_generators_consumed_once():
+    """A local bound to a generator (a call of a repository generator function, or a generator expression) is iterated at
+    most once: every iteration but the last one in the function must come after the name was re-bound to list(...) /
+    tuple(...) / sorted(...) in the same or an enclosing block.  (An exhausted generator silently yields nothing: the
+    statements a preview lists would not be executed.)"""
+    from pyvc import extract
+    gens = set()
+    for f in glob.glob(os.path.join(extract.REPO, 'django_evolution/**/*.py'), recursive=True):
+        if '/tests/' in f:
+            continue
+        for n in ast.walk(ast.parse(open(f).read())):
+            if isinstance(n, ast.FunctionDef) and any(isinstance(x, (ast.Yield, ast.YieldFrom)) for x in ast.walk(n)) \
+                    and not any('contextmanager' in ast.unparse(d) for d in n.decorator_list):
+                gens.add(n.name)
+    found = []
+    files = []
+    for pat in GEN_SCOPE:
+        files += sorted(glob.glob(os.path.join(extract.REPO, pat)))
+    for path in files:
+        rel = os.path.relpath(path, extract.REPO)
+        for fn in ast.walk(ast.parse(open(path).read())):
+            if not isinstance(fn, ast.FunctionDef):
+                continue
+            gen_names = set()
+            for n in ast.walk(fn):
+                if isinstance(n, ast.Assign) and len(n.targets) == 1 and isinstance(n.targets[0], ast.Name):
+                    v = n.value
+                    callee = v.func.attr if isinstance(v, ast.Call) and isinstance(v.func, ast.Attribute) else \
+                        (v.func.id if isinstance(v, ast.Call) and isinstance(v.func, ast.Name) else None)
+                    if isinstance(v, ast.GeneratorExp) or callee in gens:
+                        gen_names.add(n.targets[0].id)
+            for name in gen_names:
+                sites = []          # (lineno, node) of iterations, in source order
+                rebinds = []        # linenos of `name = list(name)` style statements
+
+                def is_iteration_of(n, expr, st):
+                    # `n` is the generator name used in an iterating position
+                    if not (isinstance(n, ast.Name) and n.id == name and isinstance(n.ctx, ast.Load)):
+                        return False
+                    for par in ast.walk(expr):
+                        if isinstance(par, ast.Call) and n in par.args:
+                            fname = par.func.id if isinstance(par.func, ast.Name) else \
+                                (par.func.attr if isinstance(par.func, ast.Attribute) else '')
+                            if fname in ITER_CALLS + ('join', 'extend', 'update', 'reversed', 'chain'):
+                                return True
+                        if isinstance(par, ast.comprehension) and par.iter is n:
+                            return True
+                    return isinstance(st, ast.For) and st.iter is n
+
+                def visit(block, enclosing_rebound):
+                    rebound = enclosing_rebound
+                    for st in block:
+                        if isinstance(st, ast.Assign) and len(st.targets) == 1 and isinstance(st.targets[0], ast.Name) \
+                                and st.targets[0].id == name and isinstance(st.value, ast.Call) and \
+                                isinstance(st.value.func, ast.Name) and st.value.func.id in ('list', 'tuple', 'sorted') \
+                                and any(isinstance(a_, ast.Name) and a_.id == name for a_ in st.value.args):
+                            rebound = True
+                            continue
+                        for n in ast.walk(st) if not isinstance(st, (ast.For, ast.If, ast.While, ast.With, ast.Try)) else [st]:
+                            pass
+                        # iteration sites directly in this statement (not in nested blocks)
+                        exprs = [c for c in ast.iter_child_nodes(st) if isinstance(c, ast.expr)]
+                        for e in exprs:
+                            for n in ast.walk(e):
+                                if is_iteration_of(n, e, st):
+                                    sites.append((n.lineno, n.col_offset, rebound))
+                        for fld in ('body', 'orelse', 'finalbody'):
+                            sub = getattr(st, fld, None)
+                            if isinstance(sub, list) and sub and isinstance(sub[0], ast.stmt):
+                                visit(sub, rebound)
+                        for h in getattr(st, 'handlers', []) or []:
+                            visit(h.body, rebound)
+                visit(fn.body, False)
+                sites = sorted(set(sites))
+                for ln, _col, rebound in sites[:-1]:
+                    if not rebound:
+                        found.append('%s:%d %s(): generator `%s` is consumed here and used again later' % (rel, ln, fn.name, name))
+    found = sorted(set(found))
+    if found:
+        return False, '; '.join(found)
+    return True, '%d generator functions known, %d files scanned' % (len(gens), len(files))
